@@ -576,3 +576,42 @@ Fixpoint pok (prev : option token) (seen : bool) (ps : list piece) : bool :=
       (seen || match prev with None => true | Some p => is_punct p || is_punct t end)
       && pok (Some t) false r
   end.
+
+(* ------------------------------------------------------------------------------------------ *)
+(* The domain stated independently of is_framed                                                 *)
+(* ------------------------------------------------------------------------------------------ *)
+(* What Michelson puts, with arguments or annotations, in ARGUMENT position of an application:
+   composite types and data constructors (with arguments and/or annotations), global-constant
+   references, and the simple types (annotations only).  This list is fixed by the language, not by
+   the formatter: Proofs/Printer_proofs.v (michelson_expr_wf) shows that is_framed parenthesises all
+   of them, which is exactly what defects #16 and #44 violated. *)
+Local Open Scope string_scope.
+Definition arg_applications : list bytes := map tx
+  ["pair"; "or"; "option"; "list"; "set"; "map"; "big_map"; "contract"; "lambda"; "ticket";
+   "sapling_state"; "sapling_transaction"; "sapling_transaction_deprecated";
+   "Pair"; "Left"; "Right"; "Some"; "Lambda_rec"; "Ticket"; "constant"].
+Definition simple_types : list bytes := map tx
+  ["key"; "unit"; "signature"; "operation"; "int"; "nat"; "string"; "bytes"; "mutez"; "bool";
+   "key_hash"; "timestamp"; "address"; "bls12_381_g1"; "bls12_381_g2"; "bls12_381_fr"; "chain_id";
+   "never"; "chest"; "chest_key"; "tx_rollup_l2_address"].
+Local Close Scope string_scope.
+
+Definition arg_shaped (p : pnode) : bool :=
+  match p with
+  | PPrim n annots args =>
+      negb (nonempty annots || nonempty args)
+      || mem_name n arg_applications
+      || (mem_name n simple_types && negb (nonempty args))
+  | _ => true
+  end.
+
+Fixpoint shaped_ok (p : pnode) : bool :=
+  match p with
+  | PPrim _ _ args => forallb (fun a => shaped_ok a && arg_shaped a) args
+  | PSeq items => forallb shaped_ok items
+  | _ => true
+  end.
+
+(* Micheline expressions shaped like Michelson code, types or data *)
+Definition michelson_expr (e : node) : bool :=
+  tags_ok e && shaped_ok (to_pnode e) && root_ok (to_pnode e).
